@@ -686,6 +686,13 @@ class TimeSeriesCausalGraph(CausalGraph):
 
             new_node_id = get_name_with_lag(variable_or_node_name=variable_name, lag=time_lag)
 
+        if new_node_id is None and meta is not None and self.node_exists(node_id):
+            # the node is edited in-place, so its time lag and variable name must be kept in the new metadata
+            node = self.get_node(node_id)
+            meta = self._NodeCls._process_meta(
+                meta=meta, kwargs_dict=dict(variable_name=node.variable_name, time_lag=node.time_lag)
+            )
+
         super().replace_node(node_id=node_id, new_node_id=new_node_id, variable_type=variable_type, meta=meta)
 
     @reset_cached_attributes_decorator
